@@ -1,6 +1,7 @@
 //! `conform`: the Rust side of the conformance checks.  Every subcommand either replays
 //! TLC-generated vectors into the real code (`*-replay`) or records what the real code does
 //! as ndjson for validation against the TLA+ specification (`*-trace`).
+mod c14;
 mod c15;
 mod common;
 
@@ -9,6 +10,7 @@ fn main() {
     let cmd = args.first().map(|s| s.as_str()).unwrap_or("");
     let rest = &args[args.len().min(1)..];
     let code = match cmd {
+        "c14-trace" => c14::trace(rest),
         "c15-helper" => c15::helper(rest),
         "c15-replay" => c15::replay(rest),
         _ => {
